@@ -6,7 +6,9 @@
      - C01_window: row count of limit/skip/range by the arithmetic of the bounds; the rows are a sub-sequence of
        the input; and for a window at ANY position followed by row-wise steps, the final rows are a sub-sequence
        (hence sub-multiset) of the rows of the same program without the window;
-     - C01_sound: in a well-typed program no step meets a traveler lacking the current element or mark it
+     - C01_null_moves: outNull/inNull/outENull/inENull are the plain move plus one null row per traveler the plain move
+       drops, nothing else;
+     - C01_sound: in a well-typed program without null-producing moves no step meets a traveler lacking the current element or mark it
        needs (this is what makes the per-step meanings total: no nil dereference, for every graph and program);
      - C01_order_free: for programs without windows/distinct the result multiset does not depend on the order
        in which any step delivers its rows (scan order, goroutine interleaving of both()).
@@ -48,14 +50,30 @@ Proof.
 Qed.
 Print Assumptions C01_window_anywhere.
 
-Theorem C01_sound : forall g p ty out, run_from g (DNone, []) p [t0] = Some (ty, out) ->
+Theorem C01_sound : forall g p ty out, null_free p = true -> run_from g (DNone, []) p [t0] = Some (ty, out) ->
   Forall (fun t => (is_elem (fst ty) = true -> t_cur t <> None) /\
                    (revivable (fst ty) = true -> forall m d, get_assoc m (snd ty) = Some d -> is_elem d = true ->
                                                   get_assoc m (t_marks t) <> None)) out.
 Proof.
-  intros g p ty out H. apply (run_sound g p (DNone, []) [t0] ty out H). constructor; [apply wk_t0|constructor].
+  intros g p ty out Hnf H. apply (run_sound g p (DNone, []) [t0] ty out Hnf H). constructor; [apply wk_t0|constructor].
 Qed.
 Print Assumptions C01_sound.
+
+(* the null-producing moves (outNull, inNull, outENull, inENull), from vertices: exactly the rows of the plain move, in the
+   same order, plus one row without a current element for every traveler the plain move leads nowhere from; from an edge
+   they are the plain moves *)
+Theorem C01_null_moves : forall g ls ts,
+  let nulls (l : list trav) := List.length (filter (fun x => negb (has_cur x)) l) in
+  (filter has_cur (step g DVertex (SOutNull ls) ts) = step g DVertex (SOut ls) ts /\
+   nulls (step g DVertex (SOutNull ls) ts) = List.length (filter (nowhere (out_of g ls)) ts)) /\
+  (filter has_cur (step g DVertex (SInNull ls) ts) = step g DVertex (SIn ls) ts /\
+   nulls (step g DVertex (SInNull ls) ts) = List.length (filter (nowhere (in_of g ls)) ts)) /\
+  (filter has_cur (step g DVertex (SOutENull ls) ts) = step g DVertex (SOutE ls) ts /\
+   nulls (step g DVertex (SOutENull ls) ts) = List.length (filter (nowhere (oute_of g ls)) ts)) /\
+  (filter has_cur (step g DVertex (SInENull ls) ts) = step g DVertex (SInE ls) ts /\
+   nulls (step g DVertex (SInENull ls) ts) = List.length (filter (nowhere (ine_of g ls)) ts)).
+Proof. exact null_moves. Qed.
+Print Assumptions C01_null_moves.
 
 Theorem C01_order_free : forall g p ts a b, forallb order_free p = true -> Permutation a b ->
   match run_from g ts p a, run_from g ts p b with
@@ -73,5 +91,7 @@ Example C01_nonvacuous :
                      {| ed_id := "e2"; ed_label := "likes"; ed_from := "b"; ed_to := "b"; ed_data := [] |};
                      {| ed_id := "e3"; ed_label := "likes"; ed_from := "b"; ed_to := "zz"; ed_data := [] |}] |}%string in
   run g [SV []; SAs "m"; SOut []; SBoth ["likes"]; SSelect ["m"]; SCount]%string = Rows [JMap [("count", JNum (QArith_base.Qmake 6 1))]]%string
-  /\ run g [SV []; SCount; SOut []]%string = Rejected.
+  /\ run g [SV []; SCount; SOut []]%string = Rejected
+  /\ run g [SV []; SOutNull ["knows"]; SCount]%string = Rows [JMap [("count", JNum (QArith_base.Qmake 3 1))]]%string
+  /\ run g [SV ["b"]; SOutNull ["knows"]]%string = Rows [JMap [("type", JStr "vertex")]]%string.
 Proof. vm_compute. auto. Qed.
